@@ -125,4 +125,30 @@ theorem atEndLoop_log {σ} (checks : List (Check σ)) (sts : List σ) (i : Nat) 
       · refine ⟨1, ?_⟩
         simp [h, List.range']
 
+/-- what a reader has delivered and called after the rows `a` is the beginning of what it delivers and calls on `a ++ b` -/
+theorem readLoop_prefix {σ} (cfg : ReaderCfg) (cols : List Column) (checks : List (Check σ)) (fault : Bool) (b : List Row) :
+    ∀ (a : List Row) (n : Nat) (st : RState σ),
+      (readLoop cfg cols checks false n a st).events <+: (readLoop cfg cols checks fault n (a ++ b) st).events ∧
+      (readLoop cfg cols checks false n a st).log <+: (readLoop cfg cols checks fault n (a ++ b) st).log := by
+  intro a
+  induction a with
+  | nil => intro n st; simp [readLoop]
+  | cons row rest ih =>
+    intro n st
+    rw [List.cons_append, readLoop, readLoop]
+    simp only []
+    split
+    · split
+      · split
+        · have := ih (n + 1) { st with sts := (validateRow cols checks st.sts row n).1, accepted := st.accepted + 1 }
+          exact ⟨(List.cons_prefix_cons).mpr ⟨rfl, this.1⟩, (List.prefix_append_right_inj _).mpr this.2⟩
+        · have := ih (n + 1) { st with sts := (validateRow cols checks st.sts row n).1, rejected := st.rejected + 1 }
+          cases cfg.mode with
+          | raise => exact ⟨List.prefix_refl _, List.prefix_refl _⟩
+          | yield => exact ⟨(List.cons_prefix_cons).mpr ⟨rfl, this.1⟩, (List.prefix_append_right_inj _).mpr this.2⟩
+          | «continue» => exact ⟨this.1, (List.prefix_append_right_inj _).mpr this.2⟩
+      · have := ih (n + 1) { st with accepted := st.accepted + 1 }
+        exact ⟨(List.cons_prefix_cons).mpr ⟨rfl, this.1⟩, this.2⟩
+    · exact ih (n + 1) st
+
 end Cutplace
